@@ -322,6 +322,18 @@ impl Number {
         let unit = self.pretty_unit(context);
         if let Some(orig) = unit.as_single() {
             use std::collections::HashSet;
+            use std::convert::TryFrom;
+            // SI prefixes are raised to the power of the unit, which
+            // has to be an i32 that can also be negated.
+            let power = match i32::try_from(orig.1) {
+                Ok(power) if power != i32::MIN => power,
+                _ => {
+                    return Number {
+                        value: self.value.clone(),
+                        unit: Dimensionality::new_dim(orig.0.clone(), orig.1),
+                    }
+                }
+            };
             let prefixes = [
                 "milli", "micro", "nano", "pico", "femto", "atto", "zepto", "yocto", "kilo",
                 "mega", "giga", "tera", "peta", "exa", "zetta", "yotta",
@@ -331,7 +343,7 @@ impl Number {
             .collect::<HashSet<&'static str>>();
             let (val, orig) = if *orig.0.id == "kg" || *orig.0.id == "kilogram" {
                 // kg special case
-                let mul = Numeric::from(1000).pow(orig.1 as i32);
+                let mul = Numeric::from(1000).pow(power);
                 (&self.value * &mul, (BaseUnit::new("gram"), orig.1))
             } else if *orig.0.id == "bit" && orig.1 == 1 {
                 // byte special case
@@ -344,10 +356,8 @@ impl Number {
                     continue;
                 }
                 let abs = val.abs();
-                if abs >= v.pow(orig.1 as i32)
-                    && abs < (v * &Numeric::from(1000)).pow(orig.1 as i32)
-                {
-                    let res = &val / &v.pow(orig.1 as i32);
+                if abs >= v.pow(power) && abs < (v * &Numeric::from(1000)).pow(power) {
+                    let res = &val / &v.pow(power);
                     // tonne special case
                     let unit = if &**(orig.0).id == "gram" && p == "mega" {
                         "tonne".to_string()
